@@ -47,3 +47,10 @@ Definition v_cmp (a b : val) : val :=
                   end
   | _, _ => VStuck
   end.
+
+(* an effect call obj.m(args): appended to the object's log *)
+Definition v_log (m : string) (args : list val) (obj : val) : val :=
+  match obj with
+  | VC c l => if (c =? "effects")%string then VC "effects" (l ++ [VC m args]) else VStuck
+  | _ => VStuck
+  end.
